@@ -5,7 +5,8 @@ property_map.rs) refine an abstract index map under every operation and every fo
 identical (-0 / NaN never enter DenseI32); any program over the storage interface computes the same results on the
 storage and on the abstract map (hence storage-form independence, whole histories of the modelled Array
 algorithms); the by-value get/set fast paths equal the generic path; set/get_dense_property, push_dense and
-shift's dense.remove(0) refine the abstract operations.
+shift's dense.remove(0) refine the abstract operations; histories_impl_eq_spec: implementation-model histories
+(boa flavour + fast paths on the storage) = ECMA-262 histories on the abstract array-like, for every modelled operation.
 Tie: histories of array operations run (1) on real boa arrays through JavaScript (harness `arrops`: structural
 dump after every step through Reflect.ownKeys/getOwnPropertyDescriptor + the storage form and raw contents
 through PropertyMap::index_properties()) and (2) on the extracted Gallina models (implementation model on
